@@ -8,6 +8,7 @@ recover the API content; the implementation's bytes must equal `encode (decode b
 All statements: every lawful item serde `sd` (instances: raw 4/8-byte arithmetic items, u32-length-prefixed
 strings — `ItemType.serde_lawful`), every constant set `c` with `CfgOK c`, every well-formed image, every tail.
 -/
+import DSModel.Wire.KllCode
 import DSProofs.Lemmas.WireQuantKll
 namespace DS.Wire.Kll
 open Reader
@@ -90,5 +91,14 @@ example : WF (Serde.fixed 8) docCfg
       [[1,0,0,0,0,0,0,0], [4,0,0,0,0,0,0,0], [3,0,0,0,0,0,0,0]]) = true := by decide
 
 example : WF Serde.lpString docCfg (.single 200 false [104, 105]) = true := by decide
+
+/-- the constants the CURRENT headers define satisfy the side conditions, so the theorems above apply to the model the
+correspondence check runs (`codeCfg` = DSGen values; a changed flag position / size constant breaks this obligation) -/
+theorem codeCfg_ok : CfgOK codeCfg := by decide
+
+/-- round trip at the constants of the current headers -/
+theorem decode_encode_code (sd : Serde) (hs : sd.Lawful) (s : Image) (tail : Bytes) (hw : WF sd codeCfg s = true) :
+    decode sd codeCfg (encode sd codeCfg s ++ tail) = some (s, tail) :=
+  decode_encode sd hs codeCfg codeCfg_ok s tail hw
 
 end DS.Wire.Kll
